@@ -7,6 +7,7 @@ import IpcHub.Lemmas.MediaCache2
 import IpcHub.Model.MediaInst
 import IpcHub.Props.C01
 import IpcHub.Model.FlvCacheM
+import IpcHub.Lemmas.FlvCacheM
 namespace IpcHub.Props.C02
 open IpcHub.Media
 open IpcHub.Props.C01 (subseq countOf)
@@ -133,6 +134,23 @@ theorem c02_flv_replay (gop : Bool) (tags : List IpcHub.FlvCacheM.FTag) :
   · simp [IpcHub.FlvCacheM.FCache.headers, IpcHub.FlvCacheM.restamp, List.map_map, Function.comp_def]
   · intro h; simp [IpcHub.FlvCacheM.FCache.initTs, h]
   · intro t rest h; simp [IpcHub.FlvCacheM.FCache.initTs, h]
+
+/-- FLV variant of c02_cache_state: after ANY written tag sequence the FLV cache holds the most
+    recent metadata tag, video sequence header and AAC sequence header (byte-level predicates of
+    flv/tag.go, in CachePack's priority order), and with GOP caching exactly the media tags from the
+    most recent H.264/H.265 key-frame tag onward; without it, no media tag. -/
+theorem c02_flv_cache_state (gop : Bool) (tags : List IpcHub.FlvCacheM.FTag) :
+    let c := IpcHub.FlvCacheM.cacheAfter gop tags
+    c.mdata = (tags.filter (fun t => IpcHub.FlvCacheM.tagKind t = .mdata)).getLast? ∧
+    c.vseq = (tags.filter (fun t => IpcHub.FlvCacheM.tagKind t = .vseq)).getLast? ∧
+    c.aseq = (tags.filter (fun t => IpcHub.FlvCacheM.tagKind t = .aseq)).getLast? ∧
+    c.gop = (if gop then
+        suffixFromLast (fun t => IpcHub.FlvCacheM.tagKind t = .key)
+          (tags.filter (fun t => IpcHub.FlvCacheM.tagKind t = .key ∨ IpcHub.FlvCacheM.tagKind t = .other))
+      else []) := by
+  intro c
+  have h := IpcHub.FlvCacheM.fspec_cacheAfter gop tags
+  exact ⟨h.md, h.vs, h.as, h.gopS⟩
 
 /-- non-vacuity / sanity of the cache specification on a concrete H.264 sequence -/
 example :
